@@ -62,12 +62,12 @@ func c06Fill(b []byte, k, dir int, off int64) {
 }
 
 const (
-	planComplete     = 0 // nobody closes until everything has arrived; then the client closes
-	planClientCloses = 1 // target silent; client writes all, then closes gracefully
-	planTargetCloses = 2 // client silent; target writes all, then closes gracefully
-	planClientEarly  = 3 // client closes after sending planArg bytes while the target keeps sending
-	planTargetEarly  = 4 // target closes (arg2=0) or resets (arg2=1) after sending planArg bytes
-	planTargetWrErr  = 5 // the target's socket fails the server's write after planArg bytes
+	planComplete        = 0 // nobody closes until everything has arrived; then the client closes
+	planClientCloses    = 1 // target silent; client writes all, then closes gracefully
+	planTargetCloses    = 2 // client silent; target writes all, then closes gracefully
+	planClientEarly     = 3 // client closes after sending planArg bytes while the target keeps sending
+	planTargetEarly     = 4 // target closes (arg2=0) or resets (arg2=1) after sending planArg bytes
+	planTargetWrErr     = 5 // the target's socket fails the server's write after planArg bytes
 	planTargetWrErrRead = 6 // same, but the client does not close: it keeps reading (slowly) what the target sent until the server ends the stream
 )
 
@@ -165,43 +165,43 @@ func genC06(r *hysim.Rand, tier string) *hysim.Script {
 }
 
 type c06Conn struct {
-	k                  int
-	addr               string
-	cSize, tSize       int64
-	cChunk, tChunk     int
-	plan               int
-	planArg            int64
-	planArg2           int
-	pace               time.Duration
-	dialFail           bool
-	startAfter         time.Duration
-	conn               net.Conn
-	tgt                *wTarget
-	dialErr            error
-	cSent, tSent       int64 // bytes successfully written by client / target
-	cRecv, tRecv       int64 // bytes received (and verified) by client / target
-	cEOF, tEOF         bool  // receiver saw a clean EOF
-	cRdErr, tRdErr     error
-	cDoneW, tDoneW     bool // finished writing everything
-	cClosed, tClosed   bool
+	k                    int
+	addr                 string
+	cSize, tSize         int64
+	cChunk, tChunk       int
+	plan                 int
+	planArg              int64
+	planArg2             int
+	pace                 time.Duration
+	dialFail             bool
+	startAfter           time.Duration
+	conn                 net.Conn
+	tgt                  *wTarget
+	dialErr              error
+	cSent, tSent         int64 // bytes successfully written by client / target
+	cRecv, tRecv         int64 // bytes received (and verified) by client / target
+	cEOF, tEOF           bool  // receiver saw a clean EOF
+	cRdErr, tRdErr       error
+	cDoneW, tDoneW       bool // finished writing everything
+	cClosed, tClosed     bool
 	cClosedAt, tClosedAt time.Duration
-	established        bool
-	done               chan struct{}
-	tgtStarted         chan struct{}
+	established          bool
+	done                 chan struct{}
+	tgtStarted           chan struct{}
 }
 
 type c06World struct {
 	*wWorld
-	conns    []*c06Conn
-	logger   bool
+	conns                  []*c06Conn
+	logger                 bool
 	approvedTx, approvedRx int64
-	maxChunk int64
-	vetoAt   int64
-	nLog     int64
-	vetoed   bool
-	vetoedAt time.Duration
-	wroteTgt int64 // bytes the server has written to all targets
-	killed   bool
+	maxChunk               int64
+	vetoAt                 int64
+	nLog                   int64
+	vetoed                 bool
+	vetoedAt               time.Duration
+	wroteTgt               int64 // bytes the server has written to all targets
+	killed                 bool
 }
 
 func execC06(x *hysim.Run) {
